@@ -525,6 +525,19 @@ theorem modify_eq_set_getD {β : Type} (l : List β) (i : Nat) (f : β → β) (
   rw [List.modify_eq_set, List.getD_eq_getElem?_getD, List.getElem?_eq_getElem h]
   simp
 
+theorem place1_none_lo (A : Axis K) (c t : K) (h : t + c < A.lo - ((1 : Nat) : K) / ((1000000000 : Nat) : K) * A.spacing) :
+    place1 A c t = none := by
+  simp only [place1, Smear.edgeTolFactor, h, if_true]
+
+theorem place1_none_hi (A : Axis K) (c t : K) (h : A.hi + ((1 : Nat) : K) / ((1000000000 : Nat) : K) * A.spacing < t + c) :
+    place1 A c t = none := by
+  simp only [place1, Smear.edgeTolFactor, h, if_true, ite_self]
+
+theorem place1_some (A : Axis K) (c t : K) (h1 : A.lo - ((1 : Nat) : K) / ((1000000000 : Nat) : K) * A.spacing ≤ t + c)
+    (h2 : t + c ≤ A.hi + ((1 : Nat) : K) / ((1000000000 : Nat) : K) * A.spacing) :
+    place1 A c t = some (nearest A.values (minP (maxP (t + c) A.lo) A.hi)) := by
+  simp only [place1, Smear.edgeTolFactor, not_lt.mpr h1, not_lt.mpr h2, if_false]
+
 theorem target_none1 (Ls : Smear.Lattice K) (b c : Option Nat) : target Ls none b c = none := rfl
 theorem target_none2 (Ls : Smear.Lattice K) (a c : Option Nat) : target Ls a none c = none := by cases a <;> rfl
 theorem target_none3 (Ls : Smear.Lattice K) (a b : Option Nat) : target Ls a b none = none := by
@@ -674,38 +687,49 @@ theorem addSameSpacedGrid_gen (Ls : Smear.Lattice K) (w : Ls.WF) (p : Part K) (g
     simp only [latOf_ny, latOf_nz, latOf_grid] at hraw
     change (latOf (tempL Ls a b c) tg).rawGet (i : Int) (j : Int) (k : Int) = .ok (tg.getD (flat (2 * b + 1) (2 * c + 1) i j k) zero) at hraw
     rw [hfl] at hraw
-    simp only [place1, Smear.edgeTolFactor]
-    by_cases h1 : tx + cX < Ls.X.lo - ((1 : Nat) : K) / ((1000000000 : Nat) : K) * Ls.X.spacing
-    · simp only [h1, place1, Smear.edgeTolFactor, not_false_eq_true, decide_true, decide_false, Bool.true_or, Bool.or_true, Bool.false_or, Bool.or_false, Bool.or_self, Bool.false_eq_true, if_true, if_false, ite_true, ite_false, target_none1, target_none2, target_none3, target_some]
-    by_cases h2 : Ls.X.hi + ((1 : Nat) : K) / ((1000000000 : Nat) : K) * Ls.X.spacing < tx + cX
-    · simp only [h1, h2, place1, Smear.edgeTolFactor, not_false_eq_true, decide_true, decide_false, Bool.true_or, Bool.or_true, Bool.false_or, Bool.or_false, Bool.or_self, Bool.false_eq_true, if_true, if_false, ite_true, ite_false, target_none1, target_none2, target_none3, target_some]
-    by_cases h3 : ty + cY < Ls.Y.lo - ((1 : Nat) : K) / ((1000000000 : Nat) : K) * Ls.Y.spacing
-    · simp only [h1, h2, h3, place1, Smear.edgeTolFactor, not_false_eq_true, decide_true, decide_false, Bool.true_or, Bool.or_true, Bool.false_or, Bool.or_false, Bool.or_self, Bool.false_eq_true, if_true, if_false, ite_true, ite_false, target_none1, target_none2, target_none3, target_some]
-    by_cases h4 : Ls.Y.hi + ((1 : Nat) : K) / ((1000000000 : Nat) : K) * Ls.Y.spacing < ty + cY
-    · simp only [h1, h2, h3, h4, place1, Smear.edgeTolFactor, not_false_eq_true, decide_true, decide_false, Bool.true_or, Bool.or_true, Bool.false_or, Bool.or_false, Bool.or_self, Bool.false_eq_true, if_true, if_false, ite_true, ite_false, target_none1, target_none2, target_none3, target_some]
-    by_cases h5 : tz + cZ < Ls.Z.lo - ((1 : Nat) : K) / ((1000000000 : Nat) : K) * Ls.Z.spacing
-    · simp only [h1, h2, h3, h4, h5, place1, Smear.edgeTolFactor, not_false_eq_true, decide_true, decide_false, Bool.true_or, Bool.or_true, Bool.false_or, Bool.or_false, Bool.or_self, Bool.false_eq_true, if_true, if_false, ite_true, ite_false, target_none1, target_none2, target_none3, target_some]
-    by_cases h6 : Ls.Z.hi + ((1 : Nat) : K) / ((1000000000 : Nat) : K) * Ls.Z.spacing < tz + cZ
-    · simp only [h1, h2, h3, h4, h5, h6, place1, Smear.edgeTolFactor, not_false_eq_true, decide_true, decide_false, Bool.true_or, Bool.or_true, Bool.false_or, Bool.or_false, Bool.or_self, Bool.false_eq_true, if_true, if_false, ite_true, ite_false, target_none1, target_none2, target_none3, target_some]
-    -- the node is deposited
-    have iX := clamp_inR Ls.X w.X (tx + cX)
-    have iY := clamp_inR Ls.Y w.Y (ty + cY)
-    have iZ := clamp_inR Ls.Z w.Z (tz + cZ)
-    have nX := nearest_lt Ls.X w.X (minP (maxP (tx + cX) Ls.X.lo) Ls.X.hi)
-    have nY := nearest_lt Ls.Y w.Y (minP (maxP (ty + cY) Ls.Y.lo) Ls.Y.hi)
-    have nZ := nearest_lt Ls.Z w.Z (minP (maxP (tz + cZ) Ls.Z.lo) Ls.Z.hi)
-    have hget := getValueNN_inR (latOf Ls G) hgl _ _ _ iX iY iZ nX nY nZ zero
-    have hset := fun v => setValueNN_inR (latOf Ls G) hgl _ _ _ v iX iY iZ nX nY nZ
-    simp only [latOf_xs, latOf_ys, latOf_zs, latOf_ny, latOf_nz, latOf_grid, latOf_with] at hget hset
-    simp only [h1, h2, h3, h4, h5, h6, place1, Smear.edgeTolFactor, not_false_eq_true, decide_true, decide_false, Bool.true_or, Bool.or_true, Bool.false_or, Bool.or_false, Bool.or_self, Bool.false_eq_true, if_true, if_false, ite_true, ite_false, target_none1, target_none2, target_none3, target_some, hget, hraw, bind_ok, Gen.Smear.unwrapOpt, hset, addAt,
-      Smear.Lattice.flatIdx]
-    refine congrArg _ (congrArg _ ?_)
-    have hidx : flat Ls.Y.n Ls.Z.n (nearest Ls.X.values (minP (maxP (tx + cX) Ls.X.lo) Ls.X.hi))
-        (nearest Ls.Y.values (minP (maxP (ty + cY) Ls.Y.lo) Ls.Y.hi))
-        (nearest Ls.Z.values (minP (maxP (tz + cZ) Ls.Z.lo) Ls.Z.hi)) < G.length := by
-      rw [lG]; exact Smear.flatIdx_lt Ls nX nY nZ
-    rw [modify_eq_set_getD _ _ _ zero (by simpa [flat] using hidx)]
-    rfl
+    -- the edge test, whatever way the six comparisons are written and combined
+    split_ifs with hguard
+    · -- some axis misses the lattice: the node is skipped, and so it is in the model
+      simp only [Bool.or_eq_true, Bool.and_eq_true, decide_eq_true_eq, Bool.not_eq_true', decide_eq_false_iff_not,
+        not_lt, not_le] at hguard
+      have hnone : place1 Ls.X cX tx = none ∨ place1 Ls.Y cY ty = none ∨ place1 Ls.Z cZ tz = none := by
+        rcases hguard with h | h | h | h | h | h <;>
+          first
+            | exact Or.inl (place1_none_lo _ _ _ (by linarith))
+            | exact Or.inl (place1_none_hi _ _ _ (by linarith))
+            | exact Or.inr (Or.inl (place1_none_lo _ _ _ (by linarith)))
+            | exact Or.inr (Or.inl (place1_none_hi _ _ _ (by linarith)))
+            | exact Or.inr (Or.inr (place1_none_lo _ _ _ (by linarith)))
+            | exact Or.inr (Or.inr (place1_none_hi _ _ _ (by linarith)))
+      rcases hnone with h | h | h <;> rw [h] <;> simp only [target_none1, target_none2, target_none3]
+    · -- the node is deposited
+      simp only [Bool.or_eq_true, Bool.and_eq_true, decide_eq_true_eq, Bool.not_eq_true', decide_eq_false_iff_not,
+        not_or, not_lt, not_le] at hguard
+      obtain ⟨g1, g2, g3, g4, g5, g6⟩ := hguard
+      have eX := place1_some Ls.X cX tx (by linarith) (by linarith)
+      have eY := place1_some Ls.Y cY ty (by linarith) (by linarith)
+      have eZ := place1_some Ls.Z cZ tz (by linarith) (by linarith)
+      have iX := clamp_inR Ls.X w.X (tx + cX)
+      have iY := clamp_inR Ls.Y w.Y (ty + cY)
+      have iZ := clamp_inR Ls.Z w.Z (tz + cZ)
+      have nX := nearest_lt Ls.X w.X (minP (maxP (tx + cX) Ls.X.lo) Ls.X.hi)
+      have nY := nearest_lt Ls.Y w.Y (minP (maxP (ty + cY) Ls.Y.lo) Ls.Y.hi)
+      have nZ := nearest_lt Ls.Z w.Z (minP (maxP (tz + cZ) Ls.Z.lo) Ls.Z.hi)
+      have hget := getValueNN_inR (latOf Ls G) hgl _ _ _ iX iY iZ nX nY nZ zero
+      have hset := fun v => setValueNN_inR (latOf Ls G) hgl _ _ _ v iX iY iZ nX nY nZ
+      simp only [latOf_xs, latOf_ys, latOf_zs, latOf_ny, latOf_nz, latOf_grid, latOf_with] at hget hset
+      -- the position may be written `t + centre` or `centre + t`
+      simp only [add_comm cX tx, add_comm cY ty, add_comm cZ tz]
+      simp only [eX, eY, eZ, target_some, hget, hraw, bind_ok, Gen.Smear.unwrapOpt, hset, addAt, Smear.Lattice.flatIdx]
+      refine congrArg _ (congrArg _ ?_)
+      have hidx : flat Ls.Y.n Ls.Z.n (nearest Ls.X.values (minP (maxP (tx + cX) Ls.X.lo) Ls.X.hi))
+          (nearest Ls.Y.values (minP (maxP (ty + cY) Ls.Y.lo) Ls.Y.hi))
+          (nearest Ls.Z.values (minP (maxP (tz + cZ) Ls.Z.lo) Ls.Z.hi)) < G.length := by
+        rw [lG]; exact Smear.flatIdx_lt Ls nX nY nZ
+      rw [modify_eq_set_getD _ _ _ zero (by simpa [flat] using hidx)]
+      first
+        | rfl
+        | (refine congrArg _ ?_; first | rfl | exact add_comm _ _ | ring1)
 
 end same
 
